@@ -28,6 +28,9 @@ CHECKS = {
  "C13": dict(cat="model_checking", tech="TLA+ DTM specification (FewMen.tla) + TLC validation of engine reports against certified table rows",
    text="Roots are random legal placements of pawnless <=4-man classes with half-move clocks 0..99 (nets, Threads 1..4, Hash 8..64). The real engine runs 'go infinite' until its on-demand table is built, then is stopped; TLC checks (Tr_TB.tla, TTbSearch): oracle row Bellman-consistent, reported score = exact 'mate +-DTM' when the mate completes before the 50-move limit, drawn roots never a mate score, beyond the limit no mate with three men and never a mate shorter than DTM, best move legal, keeps a shortest mate, never turns a draw into a loss.",
    note="Trusted: TLC, FewMen.tla, the DTM rows of TBGenerator<VectorStorage> (C12's claim, each used row re-checked for Bellman consistency)."),
+ "C04": dict(cat="model_checking", tech="TLA+ proof-tree / refutation-tree certificate specification (Mate.tla) checked by TLC; DTM rows for <=4-man roots",
+   text="Every 'mate N' (exact or lower bound) printed by full-strength searches, the best move delivered with it, final 'mate -N' scores and the mate-in-one clause (final score mate 1 and a mating move at every completed depth) are judged by TLC: pawnless <=4-man roots against certified DTM rows; otherwise against proof trees / refutation trees / lost trees produced by an untrusted brute-force solver and validated node by node against the rule book (attacker nodes one legal move, defender nodes all of Legal(pos), leaves IsMate). Only a TLC-validated refutation is a violation; undecided claims are counted.",
+   note="Trusted: TLC, Chess.tla/Mate.tla. Untrusted: harness/h_mate.cpp (its certificates are checked). Roots: solver-harvested forced mates <=2 (quick) / <=3 (thorough), harvested mate-in-one families (castle/ep/promotion/discovered/double check), decisive 3/4-man placements."),
 }
 
 NOT_APPLICABLE = {
